@@ -28,7 +28,7 @@ ASSUMPTIONS = ["NUMBA_BOUNDSCHECK=1 is honoured (checked at start: a deliberatel
                "negative indices wrap in numba; they are covered by the position check, not by bounds checking"]
 TIERS = {"quick": dict(runs=900, budget_s=70, shrink=120),
          "thorough": dict(runs=120000, budget_s=1200, shrink=200)}
-REQUIRED_PROBES = ["near_border", "rk_stage_clipped", "subgrid", "surface", "bottom", "diffusion", "single_level"]
+REQUIRED_PROBES = ["near_border", "rk_stage_clipped", "subgrid", "surface", "bottom", "diffusion", "single_level", "depthless_release"]
 
 EDGE = gen.profile(
     nsteps=(3, 40), p_reversed=0.2, p_land=0.4, p_subgrid=0.6, p_bathy_var=0.5, N=(1, 8),
@@ -66,6 +66,10 @@ def generate(seed: int, tier: str, idx: int) -> dict:
             r["Z"] = s.pick([0.0, round(hh, 6), round(s.uniform(0, hh), 3)])
         sc["release"]["rows"] = [r for r in sc["release"]["rows"] if m[int(round(r["Y"])), int(round(r["X"]))]] \
             or sc["release"]["rows"][:1]
+        if s.chance(0.12):
+            sc["release"]["no_z"] = True        # depth-less release: the state holds NaN depths
+            sc["release"].pop("col_order", None)
+            sc["tracker"].pop("vertdiff", None)
     else:
         mod = {"c01": c01, "c02": c02, "c03": c03, "c09": c09, "c10": c10, "c14": c14, "c15": c15}[src]
         for k in range(20):
@@ -131,6 +135,8 @@ def execute(sc) -> Result:
         if truth.vert(sc)["N"] == 1:
             res.probes["single_level"] += 1
         h = truth.bathymetry(sc)
+        if sc["release"].get("no_z"):
+            res.probes["depthless_release"] += 1
         for r in sc["release"]["rows"]:
             if r["Z"] == 0.0:
                 res.probes["surface"] += 1
